@@ -39,6 +39,10 @@ func (s CacheStatus) ApplyTo(header http.Header) {
 	header.Set(CacheStatusHeader, s.Value)
 	if s.Legacy != "" {
 		header.Set(FromCacheHeader, s.Legacy)
+	} else {
+		// Not served from cache: drop a value received from upstream (e.g. from
+		// another cache layer), it would claim the opposite.
+		header.Del(FromCacheHeader)
 	}
 }
 
